@@ -67,6 +67,8 @@ def gen_cases(ctx, n):
             sc = "wrap"          # quick: lh4/lh5 ring wraps (16 KiB)
         elif i < (14 if ctx.tier == "quick" else 66) and (ctx.tier != "quick" or meth not in ("lhx", "lh7")):
             sc = "ringend"       # a copy ending exactly at the end of the ring (and one byte either side), then look-backs over the seam
+        elif k < 0.08:
+            sc = "flat"          # flat code table sent through a single-code temporary table
         elif k < 0.75:
             sc = "small"
         elif k < 0.97:
